@@ -179,6 +179,7 @@ type AssnSpec struct {
 	ID           string
 	IssueInstant *string
 	Issuer       *string // nil: no Issuer element
+	IssuerFormat *string // nil: the entity format; "-": no Format attribute
 	NoSubject    bool
 	NameID       *string
 	Confs        []ConfSpec
@@ -230,7 +231,12 @@ func buildAssertion(a AssnSpec) *etree.Element {
 	setAttr(el, "IssueInstant", a.IssueInstant)
 	if a.Issuer != nil {
 		is := el.CreateElement("saml:Issuer")
-		is.CreateAttr("Format", "urn:oasis:names:tc:SAML:2.0:nameid-format:entity")
+		switch {
+		case a.IssuerFormat == nil:
+			is.CreateAttr("Format", "urn:oasis:names:tc:SAML:2.0:nameid-format:entity")
+		case *a.IssuerFormat != "-":
+			is.CreateAttr("Format", *a.IssuerFormat)
+		}
 		is.SetText(*a.Issuer)
 	}
 	if !a.NoSubject {
